@@ -229,15 +229,25 @@ def translate(repo: Path) -> dict:
     sub_forbidden = _forbidden_in(sub_fn, "name")
 
     ps = T.find_def(tree, "_parse_string")
-    e = _shape(ps, "_parse_string", [0, H("esc"), 1, H("esc"), H("esc"), 1, H("quote"), 1])
     used = _names_used(ps)
     for nm in ("_ESCAPE_TABLE", "_COMMENT_CHARS", "_WHITESPACE_CHARS"):
         if nm not in used:
             raise T.TranslateError(f"_parse_string no longer uses {nm}")
     strips = [n for n in ast.walk(ps) if isinstance(n, ast.Call) and isinstance(n.func, ast.Attribute)
-              and n.func.attr == "strip" and not n.args]
-    if len(strips) != 1:
-        raise T.TranslateError("_parse_string: expected exactly one argument-less .strip()")
+              and n.func.attr == "strip" and isinstance(n.func.value, ast.Name) and n.func.value.id == "value"]
+    if len(strips) != 1 or len(strips[0].args) > 1 or strips[0].keywords:
+        raise T.TranslateError("_parse_string: expected exactly one value.strip(...) call")
+    if strips[0].args:
+        # value.strip(b"...") : the explicit set of insignificant bytes
+        strip_arg = ast.literal_eval(strips[0].args[0])
+        if not isinstance(strip_arg, bytes):
+            raise T.TranslateError(f"_parse_string: strip argument {strip_arg!r}")
+        parse_strip = sorted(set(strip_arg))
+        e = _shape(ps, "_parse_string", [H("striparg"), 0, H("esc"), 1, H("esc"), H("esc"), 1, H("quote"), 1])
+    else:
+        # argument-less bytes.strip(): CPython's whitespace class
+        parse_strip = [c for c in range(256) if bytes([c]).strip() == b""]
+        e = _shape(ps, "_parse_string", [0, H("esc"), 1, H("esc"), H("esc"), 1, H("quote"), 1])
     p_esc, p_quote = _one_byte(e["esc"], "_parse_string"), _one_byte(e["quote"], "_parse_string")
 
     e = _shape(T.find_def(tree, "_unescape_subsection"), "_unescape_subsection", [0, 1, H("esc"), 1, 1, 2, 2, 1])
@@ -298,6 +308,8 @@ def escapeTable : List (UInt8 × UInt8) := [{", ".join(f"({k}, {v})" for k, v in
 def commentChars : List UInt8 := {lb(comment)}
 /-- `_WHITESPACE_CHARS` -/
 def whitespaceChars : List UInt8 := {lb(white)}
+/-- `_parse_string`: bytes removed around the value by `value.strip(...)` before the loop -/
+def parseStripSet : List UInt8 := {lb(parse_strip)}
 /-- `_parse_string`: `c == ord(b"\\\\")` -/
 def parseEscapeChar : UInt8 := {p_esc}
 /-- `_parse_string`: `c == ord(b'"')` -/
